@@ -374,6 +374,37 @@ func clHandshakeCarriesError(c *Ctx) {
 	for _, st := range p.storesTo(ck, fErr) {
 		c.Check(isNilConst(st.Val) && !stateIs(st, term) && !stateIs(st, inactive), ck, st, "ctx.err cleared only when a new backup starts", "the recorded write error is cleared before it was reported")
 	}
+	// checkpoint state machine: Init -> Active (answer nil), Terminate -> Inactive (answer ctx.err); one answer per request
+	active, _ := constantInt64(p.Const("nitro", "dwStateActive"))
+	initS, _ := constantInt64(p.Const("nitro", "dwStateInit"))
+	var toActive, toInactive bool
+	for _, st := range p.storesTo(ck, fState) {
+		n, isC := constInt(st.Val)
+		switch {
+		case isC && n == active:
+			toActive = stateIs(st, initS)
+			c.Check(toActive, ck, st, "logging becomes active exactly on the init request", "the GC worker switches delta logging on in another state than Init")
+		case isC && n == inactive:
+			toInactive = stateIs(st, term)
+			c.Check(toInactive, ck, st, "logging becomes inactive exactly on the terminate request", "")
+		default:
+			c.Check(false, ck, st, "checkpoint only moves Init->Active and Terminate->Inactive", "unexpected state transition in the GC worker's checkpoint")
+		}
+	}
+	c.Check(toActive, ck, nil, "init request activates delta logging in the GC worker", "after the init handshake the GC worker still does not log collected items: every item collected during the backup is missing from the delta files")
+	c.Check(toInactive, ck, nil, "terminate request deactivates delta logging", "the GC worker keeps writing into delta writers that StoreToDisk closes")
+	nInit, nTerm := 0, 0
+	for _, in := range fi.Instrs {
+		if s, ok := in.(*ssa.Send); ok && lastField(s.Chan) == fNotify && !fi.inLoop(in) {
+			if stateIs(in, initS) {
+				nInit++
+			}
+			if stateIs(in, term) {
+				nTerm++
+			}
+		}
+	}
+	c.Check(nInit == 1 && nTerm == 1, ck, nil, "each handshake request is answered exactly once", "an unanswered (or doubly answered) handshake blocks StoreToDisk or a later handshake for ever")
 	// changeDeltaWrState returns what it received
 	ch := p.Func("nitro", "Nitro", "changeDeltaWrState")
 	cfi := p.Info(ch)
